@@ -52,6 +52,7 @@ func (r *Reader) VerifElements() []VerifElem {
 		}
 	}
 	return out
+}
 
 // VerifShouldExcludeParagraph exposes (*Reader).shouldExcludeParagraph for a
 // reader holding the given header/footer texts (verification harness only).
